@@ -163,8 +163,18 @@ pub fn drive_run(s: &mut Sess, start: Op, cfg: &DriveCfg, ctx: &mut Ctx) -> Resu
                         }
                         for i in &bp.inspections {
                             let Some(text) = inspect_text(i, s) else { continue };
-                            let c = s.apply(&Op::Line(text.clone())).unwrap();
+                            let mut c = s.apply(&Op::Line(text.clone())).unwrap();
                             ctx.calls(1);
+                            // an immediate line of several statements takes one call per statement
+                            let mut extra = 0;
+                            while c.state == St::Running && matches!(c.res, Res::Ok) && extra < 20 {
+                                c = s.apply(&Op::Tick).unwrap();
+                                ctx.calls(1);
+                                extra += 1;
+                            }
+                            if extra > 0 {
+                                ctx.count("fault.inspect_at_break(several statements)");
+                            }
                             obs.inspections += 1;
                             match &c.res {
                                 Res::Panic(p) => {
